@@ -73,6 +73,21 @@ fn full_axes(tier: &Tier) -> Vec<(String, RunCfg)> {
     v
 }
 
+/// every subset of the three packages of a 3-name family answers hints = All, the others None
+fn hint_mask_axes() -> Vec<(String, RunCfg)> {
+    (0u64..8)
+        .map(|m| {
+            (
+                format!("sync hints on packages {:03b}", m),
+                RunCfg {
+                    hint_mask: Some(m),
+                    ..RunCfg::default()
+                },
+            )
+        })
+        .collect()
+}
+
 fn two_axes() -> Vec<(String, RunCfg)> {
     named(vec![("sync", sync_cfg()), ("sync hints=All", hint_cfg(Hint::All))])
 }
@@ -190,7 +205,7 @@ fn e1_plan(prop: P, tier: &Tier) -> Vec<PlanItem> {
                 item(f3(if q { 2 } else { 3 }, !q), if q { two_axes() } else { full_axes(tier) }, 1),
                 item(f4(tier), two_axes(), 1),
             ];
-            v.push(item(Box::new(F9 { wide: !q }), two_axes(), if q { 1 } else { 4 }));
+            v.push(item(Box::new(F9 { wide: !q }), hint_mask_axes(), if q { 1 } else { 4 }));
             if q {
                 v.push(item(
                     Box::new(Grid::f1_prime().with_fixed(vec![(1, 2, 3), (2, 3, 3)])),
